@@ -125,6 +125,11 @@ type VC struct {
 	Vacuous     bool // the entry assumptions (requires, axioms) are contradictory
 	inTypeInv   bool
 	fromField   map[ssa.Value]string
+	hdrSrc      map[int]ast.Node
+	curIdx      int
+	litTerms    map[Term]bool
+	addrVars    map[ssa.Value]bool // allocations that hold source variables (debug refs with IsAddr)
+	evalPos     token.Pos // source position at which contract names are resolved (type-switch variables)
 }
 
 type hdrInfo struct {
@@ -375,6 +380,7 @@ func (vc *VC) strLit(s string) Term {
 	t := sym(fmt.Sprintf("str!%d", len(vc.strLits)))
 	vc.declare(t, SStr)
 	vc.strLits[s] = t
+	vc.litTerms[t] = true
 	vc.strOrder = append(vc.strOrder, s)
 	vc.fact(Eq(sx("slen", t), IntLit(int64(len(s)))))
 	if len(s) <= 12 {
@@ -529,6 +535,16 @@ func (vc *VC) typeFacts(term Term, t types.Type) Term {
 		fs = append(fs, Le(term, vc.cur.alloc), Ge(term, "0"))
 	case *types.Interface:
 		fs = append(fs, Imp(Eq(sx("i_tag", term), "0"), Eq(term, "nil_iface")), Ge(sx("i_tag", term), "0"))
+		// closed world: a value of an interface declared in this package holds one of the package's implementers
+		if nt, ok := t.(*types.Named); ok && nt.Obj().Pkg() == vc.e.tpkg && u.NumMethods() > 0 {
+			if tags := vc.e.implTags(t); len(tags) > 0 && len(tags) <= 24 {
+				alts := []Term{Eq(sx("i_tag", term), "0")}
+				for _, tg := range tags {
+					alts = append(alts, Eq(sx("i_tag", term), IntLit(int64(tg))))
+				}
+				fs = append(fs, Or(alts...))
+			}
+		}
 	case *types.Struct:
 		s := vc.e.structSort(t)
 		si := vc.e.structs[s]
@@ -588,7 +604,13 @@ func (vc *VC) check(kind string, pos token.Pos, text string, cond Term, props []
 
 func (vc *VC) checkG(kind string, pos token.Pos, text string, guard, cond Term, props []string) *Obligation {
 	if cond == "true" {
-		return nil
+		switch kind {
+		case "at-call", "at-return", "body-calls", "ensures", "inv-entry", "inv-preserved", "decreases", "fresh-writes":
+			// syntactically trivial contract obligations are still recorded: if the code changes they
+			// become real obligations under the same name
+		default:
+			return nil
+		}
 	}
 	if text == "" {
 		text = vc.exprText(pos)
@@ -806,9 +828,30 @@ func (vc *VC) callModSet(call ssa.CallInstruction) *ModSet {
 		}
 		if gm := vc.e.mods[g]; gm != nil {
 			m.union(gm, false)
+		} else if fw := forwardedCallees(g); len(fw) > 0 {
+			for _, h := range fw {
+				if hm := vc.e.mods[h]; hm != nil {
+					m.union(hm, false)
+				} else {
+					m.All = true
+				}
+			}
 		} else {
 			m.All = true
 		}
 	})
 	return m
+}
+
+// eltTerm: the element j of slice s in element heap E, as an application of the function elt:<T>
+// (defined by a quantified axiom as E[arr(s)][off(s)+j]). Contracts index slices through it so that
+// quantifier triggers contain no arithmetic.
+func (vc *VC) eltTerm(elem types.Type, E, s, j Term) Term {
+	n, srt := vc.e.elemArr(elem)
+	fn := sym("elt:" + n[2:])
+	if !vc.declared[fn] {
+		vc.declareFun(fn, []string{srt, SSlice, SInt}, vc.e.sortOf(elem))
+		vc.decls = append(vc.decls, fmt.Sprintf("(assert (forall ((e %s) (s Slice) (j Int)) (! (= (%s e s j) (select (select e (s_arr s)) (+ (s_off s) j))) :pattern ((%s e s j)))))", srt, fn, fn))
+	}
+	return sx(fn, E, s, j)
 }
